@@ -239,7 +239,7 @@ class RetxRules(Rule):
                 rq._last_base = (base, op.ci)
         # C13 T2: a single retry timer per unacknowledged packet
         seen = {}
-        for tm in L.timers.values():
+        for tm in L.alive.values():
             if tm["alive"] and tm["kind"] == "retry" and tm["req"] is not None and tm["req"].pending:
                 seen.setdefault(tm["req"].rid, []).append(tm)
         for rid, lst in seen.items():
